@@ -133,7 +133,22 @@ def main():
 def replay(path):
     rp = json.load(open(path))
     print(f"replay of {path}: property {rp.get('property')} obligation {rp.get('obligation')}")
-    if "case" in rp:
+    if rp.get("bounded"):
+        # a failure of a bounded stand-in: the stand-in is deterministic in (tier, seed); run it again on this tree and
+        # look for the same clause
+        br = run_bounded(rp.get("property"), rp["bounded"], rp.get("tier", "quick"), int(rp.get("seed", 1)))
+        same = [f for f in br.get("failures", []) if f.get("obligation") == rp.get("obligation")]
+        print(json.dumps({"stand_in": rp["bounded"], "status": br.get("status"), "cases": br.get("cases"),
+                          "failure_recorded": rp.get("failure"), "failure_now": same[:1]}, indent=1, default=str)[:4000])
+        if same:
+            print(f"VIOLATION property={rp.get('property')} replay={path}")
+            return 1
+        if br.get("status") == "error":
+            print("the stand-in could not be run on this tree:", br.get("error"))
+            return 3
+        print("the stand-in no longer reports this clause on this tree")
+        return 0
+    if rp.get("case") is not None:
         res = native(["replay", path])
         print(json.dumps(res, indent=1))
         if res.get("status") == "refuted":
@@ -319,8 +334,8 @@ def check_property(prop, tier, seed, jobs, verbose):
                 known_lines.append(f"KNOWN-FINDING: property={prop} {kf['what']}")
                 continue
             violations += 1
-            path = write_replay(prop, f.get("obligation", "B." + name), {"bounded": name, "failure": f, "case": f.get("case"),
-                                                                         "key": f.get("key"), "ctx": f.get("ctx")})
+            path = write_replay(prop, f.get("obligation", "B." + name), {"bounded": name, "tier": tier, "seed": seed, "failure": f,
+                                                                         "case": f.get("case"), "key": f.get("key"), "ctx": f.get("ctx")})
             viol_lines.append(f"VIOLATION property={prop} replay={path}")
 
     # ---- every function under contract that has a generator: native small-scope run of the REAL code
